@@ -121,11 +121,62 @@ CONFIG = {
             "uses the verif hooks zip.NewForVerif / FlushForVerif / StopForVerif / SettingsForVerif / ResetInstanceForVerif",
         ],
     },
+    "C11": {
+        "level": "exploration",
+        "rule": "C11: sequential state machines for both request queues against a slice+capacity model with callback recording, and concurrent producer/consumer scenarios with schedule-independent accounting; the concurrent sub-checks also run under the race detector.",
+        "groups": [G("c11", shards={"quick": 4, "thorough": 16}, timeout={"quick": 400, "thorough": 1800}),
+                   G("c11", race=True, run="TestConc", shards={"quick": 4, "thorough": 16}, timeout={"quick": 400, "thorough": 1800})],
+        "assumptions": [
+            "elements are never nil (nil is the queue's 'empty' answer); timeouts are 1-30 ms",
+            "one-sided timeout rule: the elapsed time of an empty-handed timed get is counted in ticks of the millisecond wall clock the queue itself uses, and a violation additionally needs the monotonic elapsed time to be short; no upper bound on time is asserted",
+            "the blocking Get is issued sequentially only when an element is available; SetCapacity and Clear are only called sequentially (SetCapacity takes no lock); capacity is fixed during concurrent scenarios",
+            "the return value of PutForce is not asserted; the double queue's refusal/eviction callbacks have no setter and are observed through return values and content only",
+            "hang / lost wake-up limit 30 s (the only wall-clock bound); Size() is only called at quiescence (open finding F25 is a C10 matter)",
+        ],
+    },
+    "C12": {
+        "level": "exploration",
+        "rule": "C12: operation histories on IntIntMap, IntKeyMap, IntSet, StringSet against Go map models, every return value and Size() after every step, enumerations as multisets, wire form of IntIntMap.",
+        "groups": [G("c12", shards={"quick": 4, "thorough": 16}, timeout={"quick": 400, "thorough": 3000})],
+        "assumptions": [
+            "IntIntMap is constructed with capacity >= 1 (no guard in the constructor), load factors 0.1..4; IntKeyMap values are non-nil and comparable",
+            "the empty string is not storable in StringSet (consistent across all its methods)",
+            "enumerators are consumed while the structure is not modified and never past the end; single goroutine",
+            "NewIntSetArray / NewStringSetArray are only called with nil",
+        ],
+    },
+    "C13": {
+        "level": "exploration",
+        "rule": "C13: operation histories on the five typed lists and the linked list against slice models, wire form against the reference, sorting as a validity predicate (permutation + ordered), filtering.",
+        "groups": [G("c13", shards={"quick": 4, "thorough": 16}, timeout={"quick": 300, "thorough": 2400})],
+        "assumptions": [
+            "no NaN elements; self-append l.AddAll(l) is never issued",
+            "foreign-flavour Add/Set/Get is compared only where the conversion is exact (|v| <= 2^24 for float, <= 2^53 for double, canonical decimal text)",
+            "child lists have the size of the primary list, numeric child values within +-2^53 (the child comparator works in float64)",
+            "Read is applied to a fresh list; LinkedList.Remove/PutBefore only receive live nodes of that list; list sizes far below 2^23",
+            "typed-list remove is unexported (unreachable) and the Sort() stubs of four list types return nothing: neither is checked",
+        ],
+    },
 }
 
 NOT_APPLICABLE = {}
 
 MANIFEST_TEXT = {
+    "C11": {
+        "technique": "stateful property-based testing against a slice+capacity model with callback recording; generated concurrent producer/consumer scenarios with exactly-once/order accounting, lost-wake-up watchdog and race detector",
+        "level_text": "Generated-history exploration: thousands of sequential histories over every queue operation (return values, Failed/Overflowed arguments, content after every step) and thousands of concurrent scenarios (1-4 producers, 1-4 consumers incl. consumers parked before the first put, bounded/unbounded, mixed put/put-force) judged by accounting that is sound under any schedule; the concurrent sub-checks are repeated under -race.",
+        "level_note": "Goroutine schedules are sampled, not controlled; liveness is checked as bounded safety (30 s).",
+    },
+    "C12": {
+        "technique": "stateful property-based testing: generated operation histories against Go map/set models, multiset enumeration oracle, reference wire encoding",
+        "level_text": "Generated-history exploration: up to a million histories per type in the thorough tier over every public method with keys chosen to collide before and after table growth; every return value and Size() is compared with the model after every step.",
+        "level_note": "Single goroutine; hash collisions of IntKeyMap rely on small capacities.",
+    },
+    "C13": {
+        "technique": "stateful property-based testing against slice models; sorting checked by a validity predicate (permutation + ordering), filtering by direct indexing; reference wire encoding",
+        "level_text": "Generated-history exploration of the typed lists and the linked list (indices from -2 to beyond capacity, out-of-range must panic and leave the list unchanged) and of the sorting functions on inputs with many duplicates in all four direction combinations.",
+        "level_note": "Sort lengths capped at 300; unstable sort, so only validity is asserted, not one expected answer.",
+    },
     "C16": {
         "technique": "stateful property-based testing: generated append/send-direct/flush histories against a model of the flush rule, exactly-once/in-order accounting, retained-pack aliasing oracle; concurrent producers with the real run loop",
         "level_text": "Generated-history exploration: hundreds to tens of thousands of histories with generated settings; every emitted pack is decoded (gunzip iff flagged), its record count, compression decision and batch boundary compared with the model, the concatenated stream compared record by record with what was handed in, and every retained pack re-serialised at the end to detect later alteration. Queue-mode cases run the real goroutine with 1-4 producers and a schedule-independent oracle.",
